@@ -70,7 +70,9 @@ ApiExit == /\ Ev("ApiExit") /\ api # <<>>
               /\ (Len(api) > 1 /\ E.a = "uncatchable" /\ intr = "seen" => E.intr = 1)   \* a nested exit does not clear the flag
            /\ api' = SubSeq(api, 1, Len(api) - 1) /\ SetMode("run", "none")
            /\ ts' = ts /\ isq' = isq /\ cs' = cs /\ saved' = saved
-           /\ intr' = IF Len(api) = 1 THEN "clear" ELSE intr
+           \* only an abrupt outermost exit clears the flag (leaveAbrupt); a run that ends normally just before
+           \* noticing a late Interrupt leaves it set for the next call
+           /\ intr' = IF Len(api) = 1 /\ E.a = "uncatchable" THEN "clear" ELSE intr
 Leave == (Ev("Leave") \/ Ev("LeaveAbrupt")) /\ UNCHANGED <<ts, isq, cs, ms, api, saved, intr>>
 
 \* ---- contexts -------------------------------------------------------------------------------------------------
@@ -183,11 +185,14 @@ IntClear == Ev("IntClear") /\ intr' = "clear" /\ UNCHANGED <<ts, isq, cs, ms, ap
 \* the poll saw the flag: only now may the uncatchable throw begin
 IntSeen == Ev("IntSeen") /\ intr \in {"set", "seen"} /\ intr' = "seen" /\ UNCHANGED <<ts, isq, cs, ms, api, saved>>
 
+\* promptness: at most one instruction started while the flag was already set
+IntLate == Ev("IntLate") /\ E.a \in {"0", "1"} /\ UNCHANGED <<ts, isq, cs, ms, api, saved, intr>>
+
 Next == \/ Reset \/ ApiEnter \/ ApiExit \/ Leave \/ Ctx
         \/ TryPush \/ TryPop \/ LeaveTry \/ EnterFinally \/ LeaveFinally
         \/ ThrowBegin \/ IterPush \/ IterPop \/ IterClose \/ IterTrunc \/ Land \/ Resume1
         \/ Suspend \/ Resume \/ GenFinEnter \/ GenFinPop \/ RestoreRun \/ IterCloseRun
-        \/ IntSet \/ IntClear \/ IntSeen
+        \/ IntSet \/ IntClear \/ IntSeen \/ IntLate
 Spec == Init /\ [][Next]_vars
 
 \* acceptance: the high-water mark of consumed lines reaches the end of the trace
